@@ -121,7 +121,7 @@ def content(kind, ln, salt):
     raise ValueError(kind)
 
 
-def run_history(hist, header, viol, identical_repeats=False, kind="prng"):
+def run_history(hist, header, viol, identical_repeats=False, kind="prng", abandon=False):
     """hist: list of (addr, length). Returns (nontrivial, outcome tag).
     identical_repeats: a write whose (address, length) equals an earlier write's carries the SAME bytes as that one."""
     from a816.writers import IPSWriter
@@ -154,6 +154,9 @@ def run_history(hist, header, viol, identical_repeats=False, kind="prng"):
             if cls == "must":
                 pending_must = (i, addr, ln)  # acceptable only if the writer still refuses it in end()
             expected.append((addr + hdr, data))
+    if raised and abandon:
+        # the caller gave up after the refusal (as the file front end does when an exception escapes): no end()
+        return 1, "refused-and-abandoned"
     try:
         w.end()
     except Exception as e:  # noqa: BLE001
@@ -252,6 +255,10 @@ def run_case(case):
         if len(set(h)) < len(h) and any(ln for _, ln in h):
             runs.append((h, True))  # same history, the repeated write restores exactly the earlier bytes
     for h, ident in runs:
+        if any(classify(a + (0x200 if header else 0), ln) != "ok" for a, ln in h):
+            # a history with a refusal is run a first time WITHOUT the final end(), then again normally: nothing of the abandoned
+            # writer may show up in the next writer's file
+            run_history(h, header, [], identical_repeats=ident, kind=ckind, abandon=True)
         t, tag = run_history(h, header, viol, identical_repeats=ident, kind=ckind)
         n += 1
         nt += t
